@@ -47,6 +47,9 @@ type (
 		// document under test (Validator.signature) and its first access key, so that signature
 		// verification runs to the end instead of stopping at a missing header
 		Sign bool `json:"sign"`
+		// Cancel: 1 = the request context is already cancelled when the filter sees the request (client gone);
+		// 2 = the stubbed back-end transport cancels it during the first attempt and then fails
+		Cancel int `json:"cancel"`
 		// MQTT: packet type ("connect","publish","subscribe"), client id, topic
 		MQTT   string `json:"mqtt"`
 		Client string `json:"client"`
